@@ -611,6 +611,22 @@ struct Slot {
 /// 6 loop iterations instead of 4 / 4 / 4.
 static DEEP: std::sync::atomic::AtomicBool = std::sync::atomic::AtomicBool::new(false);
 
+/// `--one-cpu`: the whole worker process is bound to one CPU before anything is built or compiled -
+/// what a thread-per-core deployment or a one-CPU container looks like to code that asks how many
+/// CPUs there are. Under the simulator only one execution runs at a time anyway, so nothing else
+/// changes; the schedules explored and the event logs are the same.
+static ONE_CPU: std::sync::atomic::AtomicBool = std::sync::atomic::AtomicBool::new(false);
+
+fn bind_to_one_cpu() {
+    unsafe {
+        let cpu = libc::sched_getcpu().max(0) as usize;
+        let mut set: libc::cpu_set_t = std::mem::zeroed();
+        libc::CPU_SET(cpu, &mut set);
+        libc::sched_setaffinity(0, std::mem::size_of::<libc::cpu_set_t>(), &set);
+    }
+    ONE_CPU.store(true, std::sync::atomic::Ordering::Relaxed);
+}
+
 fn generate(rng: &mut Rng) -> Scenario {
     let deep = DEEP.load(std::sync::atomic::Ordering::Relaxed);
     let region_len = *rng.pick(&[64usize, 256, 2048]);
@@ -1653,6 +1669,7 @@ fn replay_json(sc: &Scenario, seed: u64, index: u64, v: &Option<Violation>, out:
     o["verif_seed"] = simcore::ju64(seed);
     o["run_index"] = simcore::ju64(index);
     o["scenario"] = sc.to_json();
+    o["one_cpu"] = ONE_CPU.load(std::sync::atomic::Ordering::Relaxed).into();
     if let Some(v) = v {
         let mut vj = JsonValue::new_object();
         vj["class"] = v.class.clone().into();
@@ -1806,6 +1823,9 @@ fn cmd_replay(args: &[String]) -> i32 {
             return 2;
         }
     };
+    if v["one_cpu"].as_bool().unwrap_or(false) {
+        bind_to_one_cpu();
+    }
     let sc = match Scenario::from_json(&v["scenario"]) {
         Some(s) => s,
         None => {
@@ -1860,6 +1880,9 @@ fn main() {
     std::panic::set_hook(Box::new(|_| {}));
     if args.iter().any(|a| a == "--deep") {
         DEEP.store(true, std::sync::atomic::Ordering::Relaxed);
+    }
+    if args.iter().any(|a| a == "--one-cpu") {
+        bind_to_one_cpu();
     }
     sched::init();
     let code = match args.get(1).map(|s| s.as_str()) {
